@@ -116,6 +116,7 @@ const TOPOLOGIES: &[&str] = &[
     "by-value",
     "foreign-thread",
     "clone-thread-panics",
+    "fixture-verify",
 ];
 
 /// what the first panic message must contain
@@ -455,6 +456,23 @@ fn child(id: &str) {
             let _ = u.consume(1);
             eprintln!("SCENARIO-DID-NOT-PANIC");
         }
+        "fixture-verify" => {
+            // a test fixture / scope guard that finishes the mock explicitly from its destructor: while the thread
+            // is unwinding, that explicit verification must stay as silent as a plain drop
+            struct Fixture(Option<Unimock>);
+            impl Drop for Fixture {
+                fn drop(&mut self) {
+                    if let Some(u) = self.0.take() {
+                        u.verify();
+                    }
+                }
+            }
+            let f = Fixture(Some(build(point, unmet)));
+            for _ in 0..extra {
+                outliving.push(f.0.as_ref().unwrap().clone());
+            }
+            body(f.0.as_ref().unwrap(), point);
+        }
         "foreign-thread" => {
             let u = build(point, unmet);
             let point = point.to_string();
@@ -499,7 +517,8 @@ fn scenarios() -> Vec<String> {
             }
             for unmet in ["met", "unmet"] {
                 let extras: &[usize] = match *t {
-                    "orig-only" | "clone-outlives" | "clone-other-thread" | "by-value" | "caught-then-continue" => &[0, 2],
+                    "orig-only" | "clone-outlives" | "clone-other-thread" | "by-value" | "caught-then-continue"
+                    | "fixture-verify" => &[0, 2],
                     _ => &[0],
                 };
                 for e in extras {
